@@ -267,6 +267,90 @@ theorem isEig2_rotate (C : Matrix (Fin 2) (Fin 2) ℝ) (d : Eig2 ℝ) (h : IsEig
     rw [h4 0 0, h4 0 1, h4 1 0, h4 1 1]
     ring
 
+/-- every symmetric 2×2 matrix is `R(θ) diag(m + h, m - h) R(θ)ᵀ` with `m = (a + d)/2`,
+    `h = ‖(a - d, 2b)‖ / 2`, `θ = arg (a - d, 2b) / 2` -/
+private theorem sym2_diagonalised (a b d : ℝ) (hz : (⟨a - d, 2 * b⟩ : ℂ) ≠ 0) :
+    let z : ℂ := ⟨a - d, 2 * b⟩
+    let θ := Complex.arg z / 2
+    let m := (a + d) / 2
+    let h := ‖z‖ / 2
+    (rot2 θ * !![m + h, 0; 0, m - h] * (rot2 θ)ᵀ) = !![a, b; b, d] := by
+  intro z θ m h
+  have hn : ‖z‖ ≠ 0 := norm_ne_zero_iff.mpr hz
+  have h2θ : 2 * θ = Complex.arg z := by simp only [θ]; ring
+  have hc2 : Real.cos (2 * θ) = (a - d) / ‖z‖ := by rw [h2θ, Complex.cos_arg hz]
+  have hs2 : Real.sin (2 * θ) = 2 * b / ‖z‖ := by rw [h2θ, Complex.sin_arg]
+  have hcc : Real.cos θ * Real.cos θ = (1 + (a - d) / ‖z‖) / 2 := by
+    have := Real.cos_sq θ; rw [hc2] at this; rw [← pow_two, this]; ring
+  have hss : Real.sin θ * Real.sin θ = (1 - (a - d) / ‖z‖) / 2 := by
+    have := Real.sin_sq θ; rw [pow_two, pow_two, hcc] at this; rw [this]; ring
+  have hcs : Real.cos θ * Real.sin θ = b / ‖z‖ := by
+    have := Real.sin_two_mul θ
+    rw [hs2] at this
+    have h2 : 2 * (Real.cos θ * Real.sin θ) = 2 * (b / ‖z‖) := by rw [mul_div_assoc] at this; linarith
+    linarith
+  ext i j
+  rw [rot2, rot_diag_rot]
+  fin_cases i <;> fin_cases j <;> simp only [m, h] <;> simp
+  · rw [hcc, hss]; field_simp; ring
+  · rw [hcs]; field_simp; ring
+  · rw [hcs]; field_simp; ring
+  · rw [hcc, hss]; field_simp; ring
+
+/-- **The eigen contract is satisfiable for every symmetric positive semi-definite 2×2 covariance**
+    (so `ellipse` is not vacuous for any input of the property's domain, rank-deficient ones included). -/
+theorem isEig2_exists (C : Mat 2 2 ℝ) (hC : IsPSD C) : ∃ d : Eig2 ℝ, IsEig2 C d := by
+  obtain ⟨hsym, hpos⟩ := hC
+  set a := C 0 0 with ha
+  set b := C 0 1 with hb
+  set d := C 1 1 with hd
+  have hb' : C 1 0 = b := (hsym 0 1).symm
+  have hCm : (Matrix.of C) = !![a, b; b, d] := by
+    ext i j; fin_cases i <;> fin_cases j <;> simp [ha, hb, hd, hb']
+  by_cases hz : (⟨a - d, 2 * b⟩ : ℂ) = 0
+  · -- isotropic: C = a • 1
+    have h1 : a - d = 0 := by simpa using congrArg Complex.re hz
+    have h2 : 2 * b = 0 := by simpa using congrArg Complex.im hz
+    have hb0 : b = 0 := by linarith
+    have hda : d = a := by linarith
+    have ha0 : 0 ≤ a := by
+      have := hpos ![1, 0]
+      simp [Fin.sum_univ_two] at this
+      simpa [ha] using this
+    refine ⟨⟨a, a, fun i j => if i = j then 1 else 0⟩, le_refl a, ha0, ?_, ?_⟩
+    · intro i j; fin_cases i <;> fin_cases j <;> simp
+    · intro i j
+      have := congrFun (congrFun hCm i) j
+      simp only [Matrix.of_apply] at this
+      rw [this]
+      fin_cases i <;> fin_cases j <;> simp [hb0, hda]
+  · have hdiag := sym2_diagonalised a b d hz
+    simp only at hdiag
+    set z : ℂ := ⟨a - d, 2 * b⟩ with hzdef
+    set θ := Complex.arg z / 2 with hθ
+    set m := (a + d) / 2 with hm
+    set h := ‖z‖ / 2 with hh
+    have hh0 : 0 ≤ h := by positivity
+    have hentries := fun i j => rot_diag_rot (Real.cos θ) (Real.sin θ) (m + h) (m - h) i j
+    have e := fun i j => congrFun (congrFun hdiag i) j
+    have e00 := e 0 0; have e01 := e 0 1; have e11 := e 1 1
+    rw [rot2, hentries] at e00 e01 e11
+    simp at e00 e01 e11
+    -- the small eigenvalue is a value of the quadratic form, hence non-negative
+    have hsmall : 0 ≤ m - h := by
+      have hq := hpos ![-Real.sin θ, Real.cos θ]
+      simp [Fin.sum_univ_two] at hq
+      rw [hb', ← ha, ← hb, ← hd, ← e00, ← e01, ← e11] at hq
+      have hcs := Real.cos_sq_add_sin_sq θ
+      have h4 : (Real.cos θ ^ 2 + Real.sin θ ^ 2) ^ 2 = 1 := by rw [hcs]; ring
+      nlinarith [h4, hcs]
+    have hD : (Matrix.of fun i j : Fin 2 => if i = j then (if i = 0 then m + h else m - h) else 0) = !![m + h, 0; 0, m - h] := by
+      ext i j; fin_cases i <;> fin_cases j <;> simp
+    have hbase := isEig2_diagonal (m + h) (m - h) (by linarith) hsmall
+    have hrot := isEig2_rotate (Matrix.of fun i j : Fin 2 => if i = j then (if i = 0 then m + h else m - h) else 0) _ hbase θ
+    rw [hD, hdiag, ← hCm] at hrot
+    exact ⟨_, hrot⟩
+
 /-! ## Non-vacuity: concrete instances meeting the hypotheses -/
 
 example : toSe2Covariance (toSe3Covariance (fun i j : Fin 3 => ((3 * i.1 + j.1 + 1 : Nat) : ℝ))) 1 2 = 6 := by
